@@ -514,8 +514,12 @@ func Observe(vm *ds.Context, o *Outcome, withDetail bool) {
 		if withDetail && o.Err == "" && !huge {
 			o.Detail = vm.GetDetailText()
 		}
-		o.Matched = vm.Matched
-		o.Rest = vm.RestInput
+		if o.Err == "" {
+			// Matched/RestInput are only defined after a successful run (after an error they still
+			// hold whatever an earlier command left there)
+			o.Matched = vm.Matched
+			o.Rest = vm.RestInput
+		}
 		o.NumOp = int64(vm.NumOpCount)
 		o.Seed = seedHex(vm)
 		o.Attrs = CanonMap(vm.Attrs)
